@@ -15,7 +15,7 @@ TRUSTED = ["ValidateSecret's verdict is an input of the model (the harness print
            "atomicity of rename(2)"]
 ASSUMPTIONS = ["secret type is immutable for the life of an object (another type under the same key is a re-created object; generated as such)"]
 LEVEL_TEXT = ("Lean 4 theorems over the store+directory model for all add/update/delete/lookup histories: a derived file is written only by a "
-              "lookup of a valid secret or an update of an already materialised valid one, always from the current version (file_current); an "
+              "lookup of a valid secret or an update of an already materialised valid one, always from the current version (lazy_write, written_is_current); an "
               "update that makes a materialised TLS/JWK/htpasswd secret invalid, its deletion, or its replacement by an object of another type (retype_removes), removes its file; a lookup of a missing or "
               "invalid secret reports an error and writes nothing (lookup_reports_error); secrets without file representation never create one. "
               "Negative results proved with witnesses: CA files survive deletion (S-C11-a) and file names collide (S-C11-b).")
